@@ -63,15 +63,28 @@ Fixpoint lab_too_long (acc : Z) (l : list (Z * Z)) : bool :=
   | (a, b) :: t => let acc' := acc + a + b in if 128 <? acc' then true else lab_too_long acc' t
   end.
 
-(* the out-of-order / equal-timestamp rule of validateExemplar; [sub] is the subtraction used
-   for newest.Ts - window: [sub64] in the code (int64 wraps), [Z.sub] in the ideal rule *)
-Definition ooo_rule (sub : Z -> Z -> Z) (w : Z) (ne e : exemplar) : bool :=
-  ((e_ts e <? e_ts ne) && (e_ts e <=? sub (e_ts ne) w))
+(* "older than the window relative to the newest exemplar", three readings:
+   WIdeal : the documented rule over the integers, e.Ts <= newest.Ts - window;
+   WFixed : the code (after "fix: tsdb: exemplar out-of-order window check overflows near
+            MinInt64"): window <= 0 || uint64(newest.Ts - e.Ts) >= uint64(window), the int64
+            subtraction wrapping and both sides converted to uint64;
+   WOld   : the code before that fix: e.Ts <= newest.Ts - window with the int64 subtraction wrapping. *)
+Inductive wrule := WIdeal | WFixed | WOld.
+Definition too_old (k : wrule) (w : Z) (ne e : exemplar) : bool :=
+  match k with
+  | WIdeal => e_ts e <=? e_ts ne - w
+  | WFixed => (w <=? 0) || (u64 w <=? u64 (sub64 (e_ts ne) (e_ts e)))
+  | WOld => e_ts e <=? sub64 (e_ts ne) w
+  end.
+
+(* the out-of-order / equal-timestamp rule of validateExemplar *)
+Definition ooo_rule (k : wrule) (w : Z) (ne e : exemplar) : bool :=
+  ((e_ts e <? e_ts ne) && too_old k w ne e)
   || ((e_ts e =? e_ts ne) && vlt (e_val e) (e_val ne))
   || ((e_ts e =? e_ts ne) && veq (e_val e) (e_val ne) && (e_hash e <? e_hash ne)).
 
 (* the checks of validateExemplar that follow the "disabled" test, against the newest exemplar *)
-Definition validate_against (sub : Z -> Z -> Z) (w : Z) (newest : option exemplar) (e : exemplar) : verr :=
+Definition validate_against (sub : wrule) (w : Z) (newest : option exemplar) (e : exemplar) : verr :=
   if lab_too_long 0 (e_lens e) then VLabelLen else
   match newest with
   | None => VOk
@@ -141,12 +154,12 @@ Definition new_state (len w : Z) : state :=
 Definition validate (st : state) (idx : option (Z * Z)) (e : exemplar) : res verr :=
   if zlen (ring st) =? 0 then Ok VDisabled else
   match idx with
-  | None => Ok (validate_against sub64 (window st) None e)
+  | None => Ok (validate_against WFixed (window st) None e)
   | Some (_, n) =>
       (* the label-length check precedes the access to exemplars[idx.newest] *)
       if lab_too_long 0 (e_lens e) then Ok VLabelLen else
       sl <- getz (ring st) n ;;
-      Ok (validate_against sub64 (window st) (Some (s_ex sl)) e)
+      Ok (validate_against WFixed (window st) (Some (s_ex sl)) e)
   end.
 
 (* findInsertionIndex: for i := newest; i != -1; { if ex[i].Ts <= e.Ts {return i}; i = ex[i].prev }; return oldest *)
@@ -439,6 +452,7 @@ Fixpoint run (st : state) (ops : list op) : list obs :=
   end.
 
 (* ------------------------------------------------------------------ part 3: the reference *)
+(* [sub] = the reading of the window rule: WIdeal is the documented rule, WFixed what the code computes *)
 Record spec := mkSp { sp_cap : Z; sp_win : Z; sp_kept : list (Z * exemplar) }.
 
 (* stable insertion by timestamp: y goes after the last element with ts <= ts y *)
@@ -458,9 +472,9 @@ Definition lastn {A} (n : nat) (l : list A) : list A := skipn (length l - n) l.
 
 Definition sp_new (len w : Z) : spec := mkSp (Z.max len 0) (Z.max w 0) [].
 
-Definition sp_validate (s : spec) (sid : Z) (e : exemplar) : verr :=
+Definition sp_validate (sub : wrule) (s : spec) (sid : Z) (e : exemplar) : verr :=
   if sp_cap s =? 0 then VDisabled else
-  validate_against Z.sub (sp_win s) (last (map Some (series_list sid (sp_kept s))) None) e.
+  validate_against sub (sp_win s) (last (map Some (series_list sid (sp_kept s))) None) e.
 
 (* silently dropped: strictly inside the series' time span and a retained exemplar has the same timestamp *)
 Definition sp_mid_dup (l : list exemplar) (e : exemplar) : bool :=
@@ -469,8 +483,8 @@ Definition sp_mid_dup (l : list exemplar) (e : exemplar) : bool :=
   | o :: _ => (e_ts o <=? e_ts e) && (e_ts e <? e_ts (last l o)) && existsb (fun x => e_ts x =? e_ts e) l
   end.
 
-Definition sp_add (s : spec) (sid : Z) (e : exemplar) : spec * add_res :=
-  match sp_validate s sid e with
+Definition sp_add (sub : wrule) (s : spec) (sid : Z) (e : exemplar) : spec * add_res :=
+  match sp_validate sub s sid e with
   | VDup => (s, AddNoop)
   | VOk =>
       if sp_mid_dup (series_list sid (sp_kept s)) e then (s, AddNoop)
@@ -506,10 +520,10 @@ Definition sp_select (s : spec) (lo hi : Z) (matched : list Z) : list (Z * list 
            (series_ids (sp_kept s)).
 
 (* observations of the reference; a dump has no counterpart (BUnit) *)
-Definition sp_step (s : spec) (o : op) : spec * obs :=
+Definition sp_step (sub : wrule) (s : spec) (o : op) : spec * obs :=
   match o with
-  | OAdd sid e => let '(s', a) := sp_add s sid e in (s', add_obs a)
-  | OValidate sid e => (s, BErr (sp_validate s sid e))
+  | OAdd sid e => let '(s', a) := sp_add sub s sid e in (s', add_obs a)
+  | OValidate sid e => (s, BErr (sp_validate sub s sid e))
   | OResize l => let '(s', m) := sp_resize s l in (s', BInt m)
   | OSetWin d => (mkSp (sp_cap s) d (sp_kept s), BUnit)
   | OSelect lo hi m => (s, BSel (sp_select s lo hi m))
@@ -517,13 +531,13 @@ Definition sp_step (s : spec) (o : op) : spec * obs :=
   | ODump => (s, BUnit)
   end.
 
-Fixpoint sp_run (s : spec) (ops : list op) : list obs :=
+Fixpoint sp_run (sub : wrule) (s : spec) (ops : list op) : list obs :=
   match ops with
   | [] => []
-  | o :: t => let '(s', b) := sp_step s o in b :: sp_run s' t
+  | o :: t => let '(s', b) := sp_step sub s o in b :: sp_run sub s' t
   end.
 
-Definition sp_exec (s : spec) (ops : list op) : spec := fold_left (fun s o => fst (sp_step s o)) ops s.
+Definition sp_exec (sub : wrule) (s : spec) (ops : list op) : spec := fold_left (fun s o => fst (sp_step sub s o)) ops s.
 
 (* ------------------------------------------------------------------ part 2: ring level *)
 (* ring of option (series, exemplar) in slot order + nextIndex; per-series lists derived *)
@@ -539,7 +553,7 @@ Definition r_new (len w : Z) : rstate := mkR (repeat None (Z.to_nat (Z.max len 0
 
 Definition r_validate (r : rstate) (sid : Z) (e : exemplar) : verr :=
   if zlen (r_ring r) =? 0 then VDisabled else
-  validate_against sub64 (r_win r) (last (map Some (series_list sid (r_kept r))) None) e.
+  validate_against WFixed (r_win r) (last (map Some (series_list sid (r_kept r))) None) e.
 
 Definition r_add (r : rstate) (sid : Z) (e : exemplar) : res (rstate * add_res) :=
   match r_validate r sid e with
@@ -613,3 +627,97 @@ Fixpoint r_run (r : rstate) (ops : list op) : list obs :=
 Definition abs_ring (st : state) : rstate :=
   mkR (map (fun s => match s_ref s with Some sid => Some (sid, s_ex s) | None => None end) (ring st))
       (nexti st) (window st).
+
+(* ------------------------------------------------------------------ well-formedness of a pointer-level state
+   (executable): the ring-level abstraction keeps holes first, every index entry heads a finite
+   in-range chain of live slots of its series, linked both ways, whose exemplars are exactly the
+   derived list (stable sort by timestamp of the series' retained exemplars in ingestion order),
+   and every live slot lies on the chain of its series. *)
+Fixpoint list_eqb {A} (f : A -> A -> bool) (a b : list A) : bool :=
+  match a, b with
+  | [], [] => true
+  | x :: a', y :: b' => f x y && list_eqb f a' b'
+  | _, _ => false
+  end.
+Definition val_eqb (a b : option Z) : bool :=
+  match a, b with Some x, Some y => x =? y | None, None => true | _, _ => false end.
+Definition ex_eqb (a b : exemplar) : bool :=
+  (e_lab a =? e_lab b) && list_eqb (fun p q => (fst p =? fst q) && (snd p =? snd q)) (e_lens a) (e_lens b)
+  && (e_hash a =? e_hash b) && val_eqb (e_val a) (e_val b) && (e_ts a =? e_ts b) && Bool.eqb (e_hasts a) (e_hasts b).
+
+Fixpoint chain_from (fuel : nat) (r : list slot) (i : Z) : option (list Z) :=
+  match fuel with
+  | O => None
+  | S f =>
+      if i =? noEx then Some [] else
+      match getz r i with
+      | Ok s => match chain_from f r (s_next s) with Some t => Some (i :: t) | None => None end
+      | _ => None
+      end
+  end.
+
+Definition slot_at (r : list slot) (i : Z) : slot := match getz r i with Ok s => s | _ => zero_slot end.
+
+(* prev pointers mirror the chain: prev of the head is -1, prev of each later element is its predecessor *)
+Fixpoint prevs_ok (r : list slot) (before : Z) (ps : list Z) : bool :=
+  match ps with
+  | [] => true
+  | p :: t => (s_prev (slot_at r p) =? before) && prevs_ok r p t
+  end.
+
+Fixpoint holes_firstb {A} (l : list (option A)) : bool :=
+  match l with
+  | None :: t => holes_firstb t
+  | _ => forallb (fun x => match x with Some _ => true | None => false end) l
+  end.
+
+Definition chain_ok (st : state) (kept : list (Z * exemplar)) (entry : Z * (Z * Z)) : bool :=
+  let '(sid, (o, n)) := entry in
+  match chain_from (S (length (ring st))) (ring st) o with
+  | None => false
+  | Some ps =>
+      negb (Nat.eqb (length ps) 0) && (last ps noEx =? n) && prevs_ok (ring st) noEx ps
+      && forallb (fun p => match s_ref (slot_at (ring st) p) with Some s => s =? sid | None => false end) ps
+      && list_eqb ex_eqb (map (fun p => s_ex (slot_at (ring st) p)) ps) (series_list sid kept)
+  end.
+
+Fixpoint nodupb (l : list Z) : bool :=
+  match l with [] => true | x :: t => negb (existsb (Z.eqb x) t) && nodupb t end.
+
+Definition wfb (st : state) : bool :=
+  let r := abs_ring st in
+  let n := zlen (ring st) in
+  let kept := r_kept r in
+  (((n =? 0) && (nexti st =? 0)) || ((0 <=? nexti st) && (nexti st <? n)))
+  && holes_firstb (rotate (Z.to_nat (nexti st)) (r_ring r))
+  && nodupb (map fst (index st))
+  && forallb (chain_ok st kept) (index st)
+  && forallb (fun p => match ix_get (index st) (fst p) with Some _ => true | None => false end) kept
+  && (Z.of_nat (length kept) =?
+      fold_left (fun acc e => acc + match chain_from (S (length (ring st))) (ring st) (fst (snd e)) with
+                                    | Some ps => zlen ps | None => 0 end) (index st) 0).
+
+(* run the pointer-level model and check, after every operation, that the state is well-formed
+   and abstracts to the state of the ring-level model run alongside *)
+Definition rstate_eqb (a b : rstate) : bool :=
+  list_eqb (fun x y => match x, y with
+                       | Some (s, e), Some (s', e') => (s =? s') && ex_eqb e e'
+                       | None, None => true
+                       | _, _ => false end) (r_ring a) (r_ring b)
+  && (r_next a =? r_next b) && (r_win a =? r_win b).
+
+Fixpoint sim_run (st : state) (r : rstate) (ops : list op) : bool :=
+  wfb st && rstate_eqb (abs_ring st) r &&
+  match ops with
+  | [] => true
+  | o :: t =>
+      match step st o, r_step r o with
+      | Ok (st', _), Ok (r', _) => sim_run st' r' t
+      | Ok _, _ | _, Ok _ => false
+      | _, _ => true        (* both stop *)
+      end
+  end.
+
+(* the pointer-level state reached by a history *)
+Definition exec (st : state) (ops : list op) : res state :=
+  fold_left (fun acc o => st <- acc ;; '(st', _) <- step st o ;; Ok st') ops (Ok st).
